@@ -231,6 +231,12 @@ def loads(vk, cfg):
         vk.canary("constraint-forces==0", r, 0 * r)
 
 
+def coo_bound():
+    from vk import coo
+
+    return coo.bound()
+
+
 @contract("C14", "pressure_resultant", configs=[dict(field=f) for f in ("3d", "planestrain", "axisymmetric")])
 def pressure_resultant(vk, cfg):
     """follower pressure: the nodal vector sums to minus the pressure times the integrated current area
@@ -289,6 +295,19 @@ def pressure_resultant(vk, cfg):
     vk.ensures_eq("pressure-keyword-is-stored/resultant", resultant(item), -p2 * area)
     if vk.sym:
         vk.canary("resultant==+p*area", resultant(item), p2 * area + 1)
+    # a load value handed to assemble.MATRIX (a hand-written Newton loop assembles the tangent first) is the load of the
+    # following assemble.vector() as well -- for every value, the unloaded state 0 included
+    vk.real(fem.SolidBodyPressure._matrix)
+    zero = (0 * p0) if vk.sym else 0.0
+    for tag, pv in (("zero", zero), ("p3", vk.real_scalar("p3", near=-0.7))):
+        if vk.sym:
+            item._area_change = StubAreaChange()
+            with coo_bound():
+                item.assemble.matrix(pressure=pv)
+        else:
+            item.assemble.matrix(pressure=pv)
+        vk.ensures_eq(f"pressure-keyword-of-matrix({tag})-is-stored/resultant==-p*area-vector", resultant(item), -pv * area)
+    item.update(p2)
     # evaluated for ANOTHER state handed over as `field=` (a container of its own with other values): the resultant is
     # -p times the current area vector of THAT state, and the state handed over is only read
     vk.real(fem.SolidBodyPressure._update)
